@@ -129,6 +129,11 @@ def run_case(case):
             v0 = {"alloc": 10 ** (1 + 4 * u[1]), "capacity": 10 ** (4 * u[1]), "coverage": u[1]}[field]
             v1 = {"alloc": 10 ** (1 + 4 * u[2]), "capacity": 10 ** (4 * u[2]), "coverage": u[2]}[field]
             tbefore = min(t0, Y) - 1.0
+            if Y > t0 + float(s["dt"]) and (u[3] * 100) % 1 < 0.4:
+                # the first dated point lies after the program start (and before Y): until then the first value is in force
+                # (constant extrapolation), whatever comes later in the series
+                tbefore = t0 + (0.1 + 0.8 * ((u[4] * 100) % 1)) * (Y - t0)
+                R.count("overwrite_series_whose_first_point_is_after_the_program_start")
             insA = dict(ps["instructions"])
             insA.update({"start": t0, "stop": None})
             insA[field] = dict(insA[field])
